@@ -94,7 +94,7 @@ def table_case(draw):
             'expand': draw(st.booleans()), 'narrow': draw(st.booleans()),
             'nullvalue': draw(st.sampled_from(['', '', 'NULL', '-', 'n/a'])),
             'listsep': draw(st.sampled_from(['  ', ', ', ' | ', ';']))}
-    return {'kinds': kinds, 'names': names, 'rows': rows, 'opts': opts}
+    return {'kinds': kinds, 'names': names, 'rows': rows, 'opts': opts, 'commas': draw(st.integers(0, 4)) == 0}
 
 
 def all_amounts(value):
@@ -139,6 +139,8 @@ def prop_render(sh, case):
     kinds, rows, opts = case['kinds'], [tuple(r) for r in case['rows']], case['opts']
     columns = [beanquery.Column(n, TYPES[k][0]) for n, k in zip(case['names'], kinds)]
     dcontext = display_context_for(rows)
+    if case.get('commas'):
+        dcontext.set_commas(True)        # the ledger option render_commas
     out = io.StringIO()
     try:
         query_render.render_text(columns, rows, dcontext, out, **opts)
